@@ -14,6 +14,7 @@ def run(ck):
         extra(ck, w)
     l1_radix(ck, w)
     l2_identity_swap(ck, w)
+    l3_from_xy(ck, w)
 
 
 DIGITS = ('to_u64_digits', 'to_u32_digits', 'iter_u64_digits', 'iter_u32_digits')
@@ -81,3 +82,26 @@ def l2_identity_swap(ck, w):
                   f'ForeignEccChip::mul_by_constant hands the raw `base` to {c.rsplit("::", 1)[-1]} (no select on base.is_id on this branch): that routine rejects the '
                   f'identity, although the trait documents it as a valid base', hirq.fn_loc(f, node))
     ck.floor('C06.L2', 'incomplete routines called by mul_by_constant', n, 2)
+
+
+def l3_from_xy(ck, w):
+    """coordinate constructors compare both coordinates and do not unwrap a failed decoding"""
+    from ..core import walk, peel, callee
+    from ..engines import hirq
+    ck.rule('C06.L3', 'CircuitCurve::from_xy (off-circuit half of point assignment and coordinate extraction): an implementation that rebuilds the point from a '
+                      'compressed form (one coordinate + the sign of the other) compares the decoded point with BOTH given coordinates before returning Some, and '
+                      'returns None — not a panic — when the decoding fails.  The Jubjub impl decoded from y and the parity of x, tested only `get_v() == y` '
+                      '(always true) and `expect`ed the decoding: from_xy(x + 2, y) returned the point (x, y), from_xy(x, 2) panicked')
+    fs = [f for f in w.all_fns(['circuits']) if f['name'] == 'from_xy' and f['file'].endswith('ecc/curves.rs')]
+    ck.floor('C06.L3', 'from_xy implementations', len(fs), 3)
+    for f in fs:
+        decodes = [m for m in hirq.calls(f['body']) if (callee(m) or '').endswith(('::from_bytes', 'GroupEncoding::from_bytes'))]
+        if not decodes:
+            ck.ok('C06.L3', f'{f["_xid"]}:direct', 'builds the point from both coordinates directly')
+            continue
+        reads = {m.get('m') or (callee(m) or '').rsplit('::', 1)[-1] for n in walk(f['body']) if n.get('k') == 'if' for m in hirq.calls(n['c'])}
+        both = {'get_u', 'get_v'} <= reads or {'x', 'y'} <= reads
+        unwraps = [m for m in hirq.calls(f['body']) if (m.get('m') in ('expect', 'unwrap'))]
+        ck.record('C06.L3', f'{f["_xid"]}:compares-both-coordinates', both and not unwraps, 'decoded point compared with both coordinates, decoding failure -> None',
+                  f'{f["_nid"]}: the point decoded from the compressed form is ' + ('not compared with both coordinates' if not both else 'unwrapped with expect/unwrap') +
+                  ': wrong coordinates are accepted (or an invalid coordinate panics)', hirq.fn_loc(f))
